@@ -35,7 +35,7 @@ var pureFuncs = map[string]bool{
 }
 
 // allocOnlyFuncs: dependency functions whose only effect is to allocate their result.
-var allocOnlyFuncs = map[string]bool{"errors.New": true, "fmt.Errorf": true}
+var allocOnlyFuncs = map[string]bool{"errors.New": true, "fmt.Errorf": true, "github.com/golang-jwt/jwt/v4.NewNumericDate": true}
 
 // isPureModuleFunc: a module function with no side effects (no stores to memory it did not allocate, no
 // calls except to pure functions, no map updates). firstSet is the typical instance.
@@ -99,6 +99,10 @@ func (a *Analysis) pureFn(fn *ssa.Function, allowPanic bool) bool {
 						continue
 					}
 					return false
+				}
+				// an accessor of an interface value (block.BlockSize(), aead.NonceSize()): named by its receiver and name
+				if c.IsInvoke() && pureMethodNames[c.Method.Name()] && !returnsError(c.Signature()) {
+					continue
 				}
 				sc := c.StaticCallee()
 				if sc == nil {
@@ -899,10 +903,19 @@ func capturedSingleStore(al *ssa.Alloc) ssa.Value {
 						if z.Addr == ssa.Value(cf.FreeVars[i]) {
 							return nil
 						}
+					case *ssa.Call:
+						if !readOnlyReceiverCall(z, cf.FreeVars[i]) {
+							return nil
+						}
 					default:
 						return nil
 					}
 				}
+			}
+		case *ssa.Call:
+			// the variable's address as the receiver of an accessor with a pointer receiver (u.String() on a url.URL)
+			if !readOnlyReceiverCall(y, al) {
+				return nil
 			}
 		default:
 			return nil
@@ -1400,4 +1413,100 @@ func localHelperClosure(fn *ssa.Function) bool {
 		}
 	}
 	return n > 0
+}
+
+// valueOfPureCall: while v is a call of a side-effect-free module function or of a local helper literal (a function
+// literal that is only called, in the function that defines it) with one return statement and one result: the value
+// that return yields, and the callee's context with parameters and captured variables bound. (v, fc) otherwise.
+func (fc *FuncCtx) valueOfPureCall(v ssa.Value) (*FuncCtx, ssa.Value) {
+	cur, c := fc, v
+	for i := 0; i < 4; i++ {
+		call, ok := c.(*ssa.Call)
+		if !ok {
+			break
+		}
+		sc := call.Call.StaticCallee()
+		if sc == nil || len(sc.Blocks) == 0 || cur.depth >= cur.A.MaxDepth || !cur.A.isPureValueFunc(sc) {
+			break
+		}
+		ret := singleReturn(sc)
+		if ret == nil || len(ret.Results) != 1 {
+			break
+		}
+		cur = cur.inlineCtx(sc, call.Call.Args, call)
+		c = ret.Results[0]
+	}
+	return cur, c
+}
+
+// outOfLiteral: a value read inside a function literal from a variable it captures, as the value the declaring function
+// gave that variable (when it is assigned once); v otherwise.
+func outOfLiteral(v ssa.Value) ssa.Value {
+	for i := 0; i < 3; i++ {
+		cv := capturedValue(v)
+		if cv == v {
+			break
+		}
+		v = cv
+	}
+	return v
+}
+
+// forwardedResults: the results of ret; when they are, all of them, the results of one call of a side-effect-free module
+// function or local helper literal with a single return (`return none()`), the values that return yields, and the
+// callee's context.
+func (fc *FuncCtx) forwardedResults(ret *ssa.Return) (*FuncCtx, []ssa.Value) {
+	cur, res := fc, ret.Results
+	for i := 0; i < 3; i++ {
+		if len(res) < 2 {
+			break
+		}
+		var call *ssa.Call
+		ok := true
+		for k, rv := range res {
+			ex, isEx := rv.(*ssa.Extract)
+			if !isEx || ex.Index != k {
+				ok = false
+				break
+			}
+			c, isC := ex.Tuple.(*ssa.Call)
+			if !isC || (call != nil && c != call) {
+				ok = false
+				break
+			}
+			call = c
+		}
+		if !ok || call == nil {
+			break
+		}
+		sc := call.Call.StaticCallee()
+		if sc == nil || len(sc.Blocks) == 0 || cur.depth >= cur.A.MaxDepth || !cur.A.isPureValueFunc(sc) {
+			break
+		}
+		r2 := singleReturn(sc)
+		if r2 == nil || len(r2.Results) != len(res) {
+			break
+		}
+		cur = cur.inlineCtx(sc, call.Call.Args, call)
+		res = r2.Results
+	}
+	return cur, res
+}
+
+// readOnlyReceiverCall: addr is used by call only as the receiver of a standard-library accessor (a method among
+// pureMethodNames that returns no error): the variable is read, not written.
+func readOnlyReceiverCall(call *ssa.Call, addr ssa.Value) bool {
+	sc := call.Call.StaticCallee()
+	if sc == nil || sc.Signature.Recv() == nil || len(call.Call.Args) == 0 || call.Call.Args[0] != addr {
+		return false
+	}
+	for _, a := range call.Call.Args[1:] {
+		if a == addr {
+			return false
+		}
+	}
+	if sc.Pkg != nil && strings.HasPrefix(sc.Pkg.Pkg.Path(), modPath) {
+		return false
+	}
+	return pureMethodNames[sc.Name()] && !returnsError(sc.Signature)
 }
